@@ -252,6 +252,30 @@ def sequence_grammar(rng, derive=True):
     return items
 
 
+INVISIBLE = ["\ufeff", "\u200b", "\u200c", "\u200d", "\u2060", "\u00ad", "\u180e", "\u0000", "\ufffe", "\u061c", "\u200e", "\ufe0f", "\u034f"]
+
+
+def invisible_probes(bases, rng, per_base=6):
+    """Valid texts with one character that *looks like nothing* (byte order mark, zero-width space / joiner, soft
+    hyphen, NUL, directional marks …) put in front, behind, or at a token boundary: none of them is `White_Space`,
+    so every one of these texts has a lexical error at exactly that character — a front end that silently strips
+    or skips such a character answers differently."""
+    out = []
+    for b in bases:
+        for _ in range(per_base):
+            ch = rng.choice(INVISIBLE)
+            where = rng.choice(["front", "front", "back", "boundary"])
+            if where == "front":
+                out.append(ch + b)
+            elif where == "back":
+                out.append(b + ch)
+            else:
+                cuts = [i for i, c in enumerate(b) if c in " \n"]
+                i = rng.choice(cuts) if cuts else 0
+                out.append(b[:i] + ch + b[i:])
+    return out
+
+
 def exhaustive_small_grammars(maxlen1=3, maxlen2=2, stride=1, offset=0):
     """Every grammar, up to the names, of a small scope: one nonterminal S over terminals {X, Y} with one or two
     alternatives of length <= maxlen1, and two nonterminals S, A with one or two alternatives each of length
